@@ -945,7 +945,10 @@ def load_local_known(ctx):
 
 
 def run(ctx):
-    ctx.build_with_translator(FILES)
+    from . import c13r
+    ctx.build_with_translator(FILES, extra_files=c13r.EXTRA_FILES,            # real-number normalisation proofs
+                              extra_obligation_files=c13r.EXTRA_OBLIGATION_FILES)
+    c13r.tie(ctx)
     seen_sig = {}
 
     def report(sig, what, d, found_input=True):
